@@ -257,6 +257,10 @@ type maskResult struct {
 }
 
 func (r *maskResult) guard(stage string, f func()) bool {
+	if maskPoisoned(stage) {
+		// this entry point has already hung three times: do not call it again (a hung goroutine cannot be killed)
+		return true
+	}
 	r.cur.Store(stage)
 	var qp *maskQueryPanic
 	p := nd.Guard(func() {
@@ -417,13 +421,24 @@ type maskRobustResult struct {
 
 var maskHangs int32
 
+var (
+	maskHangMu     sync.Mutex
+	maskHangStages = map[string]int{}
+)
+
+func maskPoisoned(stage string) bool {
+	maskHangMu.Lock()
+	defer maskHangMu.Unlock()
+	return maskHangStages[stage] >= 3
+}
+
 // maskWatchdog: generous, the machine may be heavily loaded; the check re-runs a hanging input alone to confirm
 const maskWatchdog = 45 * time.Second
 
 // maskWatch runs f(r) with a watchdog: a call that does not return is an observation ("hang"), the stuck goroutine
-// is abandoned (it cannot be killed); after 24 hangs the remaining cases are not run any more.
+// is abandoned (it cannot be killed); after 64 hangs the remaining cases are not run any more.
 func maskWatch(f func(r *maskResult) (*maskRobustResult, error)) (*maskRobustResult, error) {
-	if atomic.LoadInt32(&maskHangs) >= 24 {
+	if atomic.LoadInt32(&maskHangs) >= 64 {
 		return &maskRobustResult{Accept: "skipped"}, nil
 	}
 	r := &maskResult{}
@@ -442,6 +457,9 @@ func maskWatch(f func(r *maskResult) (*maskRobustResult, error)) (*maskRobustRes
 	case <-time.After(maskWatchdog):
 		atomic.AddInt32(&maskHangs, 1)
 		st, _ := r.cur.Load().(string)
+		maskHangMu.Lock()
+		maskHangStages[st]++
+		maskHangMu.Unlock()
 		return &maskRobustResult{Hang: true, Stage: st}, nil
 	}
 }
